@@ -137,11 +137,12 @@ def canon(w):
 # ----------------------------------------------------------------------
 def settle(st):
     """the main loop renders after every input: pending focus changes of a ListBox are resolved by that render"""
+    st.settle_error = None
     try:
         urwid.CanvasCache.clear()
         st.root.render(st.size, True)
-    except Exception:
-        pass  # reported by check_state
+    except Exception as e:
+        st.settle_error = e  # reported by check_state (a second render may succeed)
 
 
 def positions(cs):
@@ -244,6 +245,9 @@ class Spec:
         def V(clause, detail, cls="", site=""):
             ctx.violation(clause, f"C08/{clause}/{cls or name}{('/' + site) if site else ''}", case, detail)
 
+        err = getattr(st, "settle_error", None)
+        if err is not None:
+            V("render-raises", f"the render after the last input raised {type(err).__name__}: {err}", site=exc_site(err))
         cs, ls = [], []
         walk(st.root, cs, ls)
         for cont in cs:
